@@ -25,10 +25,10 @@ def _resolve(path):
 def apply(spec):
     """spec = dict(target=..., old=..., new=...)"""
     f = _resolve(spec["target"])
-    src = textwrap.dedent(inspect.getsource(f))
+    src = inspect.getsource(f)  # patterns are written with the indentation of the file
     if src.count(spec["old"]) != 1:
         raise RuntimeError(f"mutant {spec.get('name')}: pattern occurs {src.count(spec['old'])} times in {spec['target']}")
-    src = src.replace(spec["old"], spec["new"])
+    src = textwrap.dedent(src.replace(spec["old"], spec["new"]))
     # strip decorators (property/staticmethod/...): we only need the code object
     lines = src.split("\n")
     while lines and lines[0].lstrip().startswith("@"):
